@@ -19,11 +19,25 @@ def run_unit(res, unit, findings, tier, seed, tmp):
     excl = [f.key for f in findings if f.status == "known"] + unit.get("exclude", [])
     procs = []
     t0 = time.time()
-    seeds_dir = os.path.join(runner.VERIF, "corpus", "fuzz-" + h)
+    # starting corpus: cases drawn from the rapidcheck generator of the same harness, in the
+    # byte encoding of the libFuzzer adapter (half the workers start from them, half from empty)
+    seeds_dir = os.path.join(tmp, "%s-seeds" % h)
+    os.makedirs(seeds_dir, exist_ok=True)
+    rc_h = unit.get("seed_harness", h[:-2] if h.endswith("fz") else None)
+    if rc_h and runner.harness_exists(rc_h):
+        env = dict(os.environ)
+        env.update({"RC_PARAMS": "seed=%d max_success=%d max_size=%d" % (seed * 1000 + 777, unit.get("seeds", 300), unit.get("seed_size", 60)),
+                    "VERIF_PROP": res.prop, "VERIF_EXCLUDE": ",".join(excl)})
+        subprocess.run(runner.harness_cmd(rc_h) + ["--seeds", seeds_dir], stdout=subprocess.DEVNULL, stderr=subprocess.DEVNULL, env=env)
+        maxlen = unit.get("max_len", 1200)
+        for f in glob.glob(os.path.join(seeds_dir, "*")):
+            if os.path.getsize(f) > maxlen:
+                os.unlink(f)
+    nseeds = len(os.listdir(seeds_dir))
     for w in range(W):
         cdir = os.path.join(tmp, "%s-corpus-%d" % (h, w))
         os.makedirs(cdir, exist_ok=True)
-        if w % 2 == 1 and os.path.isdir(seeds_dir):  # half the workers start from the saved seeds, half from empty
+        if w % 2 == 1 and os.path.isdir(seeds_dir):  # half the workers start from the generated seeds, half from empty
             for f in glob.glob(os.path.join(seeds_dir, "*")):
                 shutil.copy(f, cdir)
         env = dict(os.environ)
@@ -32,7 +46,7 @@ def run_unit(res, unit, findings, tier, seed, tmp):
                     "VERIF_TMP": tmp, "ASAN_OPTIONS": "detect_leaks=0:abort_on_error=1", "UBSAN_OPTIONS": "halt_on_error=1"})
         s = seed * 1000 + w + 1  # never 0 (= random for libFuzzer)
         cmd = [runner.harness_path(h), "-runs=%d" % per, "-seed=%d" % s, "-max_len=%d" % unit.get("max_len", 1200),
-               "-artifact_prefix=%s/" % cdir, "-print_final_stats=1", "-timeout=60", cdir]
+               "-artifact_prefix=%s/" % cdir, "-print_final_stats=1", "-timeout=60", "-len_control=0", cdir]
         procs.append((w, stats, cdir, subprocess.Popen(cmd, stdout=subprocess.PIPE, stderr=subprocess.STDOUT, text=True, env=env)))
     falsified = []
     cov = 0
@@ -62,7 +76,7 @@ def run_unit(res, unit, findings, tier, seed, tmp):
         if mc:
             cov = max(cov, int(mc[-1]))
     res.units.append({"unit": h, "kind": "libFuzzer (coverage guided, ASan+UBSan)", "workers": W, "runs_per_worker": per,
-                      "max_edge_coverage": cov, "wall_s": round(time.time() - t0, 1)})
+                      "max_edge_coverage": cov, "generated_seed_inputs": nseeds, "wall_s": round(time.time() - t0, 1)})
     seen = set()
     for key, path, msg in falsified:
         if key in seen:
